@@ -1,14 +1,15 @@
 /-
   C01/ForInTheorems — otto's for-in evaluator (nested loops over the prototype chain, stopped through
-  the flags `obj = nil` / `return false`) refines the ES5 §12.6.4 reading (one loop over the flattened,
-  shadow-filtered list of properties; an abrupt completion ends the statement), for every chain, every
-  property list, every `has` and every behaviour of the body – up to the two Dev regions:
-  * `forin_break_value`: the completion VALUE after `break` (erased by `Fin.obs`; equal when the body
-    never breaks – `forin_refines_value`);
-  * `forin_revisit`: the hypothesis `Stable` (shadowing properties are not deleted during the
-    enumeration); without it otto can visit a name twice (`dev_revisit`).
-  The historical defects are exactly what the proof needs: cfa3e2e (an exit stopped only the inner
-  loop) would break `outer_spec`, cb72f5e (no shadow test) would break `inner_spec`.
+  the flags `obj = nil` / `return false`, two value accumulators, a `visited` set kept only when the
+  object has a prototype) IS the ES5 §12.6.4 loop (one loop over all properties of the chain in turn;
+  not deleted, enumerable, not shadowed, name not visited before; an abrupt completion ends the
+  statement), for every chain, every property list, every `has` (deletions and additions by the body
+  included) and every behaviour of the body: `forin_refines`, no hypothesis, values included.
+  `forin_refines_static`: when shadowing does not change during the enumeration (`Stable`), this is
+  also the reading in which what shadows what is fixed at the start (the one FnSpec executes).
+  The historical defects are exactly what the proofs need: cfa3e2e (an exit stopped only the inner
+  loop) and the value dropped on break would break `outer_rec`, cb72f5e (no shadow test) and the
+  missing `visited` set would break `inner_rec`.
 -/
 import OttoVerif.C01.ForInModel
 namespace OttoVerif.C01.ForInThm
@@ -17,85 +18,205 @@ open OttoVerif.C01.ForIn
 section
 variable {κ σ ρ ν : Type} [DecidableEq κ]
 
+omit [DecidableEq κ] in
 theorem orV_assoc (a b c : Option ν) : orV a (orV b c) = orV (orV a b) c := by
   cases a <;> rfl
 
-/-- the shadow test otto makes when a property's turn comes gives what the list of names of the
-    objects nearer the start says, for every object from position `i` on -/
-def ShadowOK (has : σ → Nat → κ → Bool) : Nat → List (Props κ) → List κ → Prop
-  | _, [], _ => True
-  | i, o :: rest, seen =>
-    (∀ s k, k ∈ names o → shadowNow has s i k = seen.contains k) ∧ ShadowOK has (i+1) rest (seen ++ names o)
+/-! ### the chain has a second object: the visited set is kept -/
 
 /-- one object of the chain: otto's inner loop is the corresponding stretch of the flat loop -/
-theorem inner_spec (has : σ → Nat → κ → Bool) (body : κ → σ → Out σ ρ ν) (i : Nat) (seen : List κ)
-    (tail : List (Nat × κ)) (res : Option ν) :
-    ∀ (ps : Props κ), (∀ s k, k ∈ names ps → shadowNow has s i k = seen.contains k) →
-    ∀ (s : σ) (ev : Option ν),
-      (specLoop has body (((ps.filter fun p => p.2 && !seen.contains p.1).map fun p => (i, p.1)) ++ tail) s (orV ev res)).obs =
-        match inner has body i ps s ev with
-        | .finished ev' s' => (specLoop has body tail s' (orV ev' res)).obs
-        | .stopped s' => .broke none s'
+theorem inner_rec (has : σ → Nat → κ → Bool) (body : κ → σ → Out σ ρ ν) (i : Nat)
+    (tail : List (Nat × κ × Bool)) (res : Option ν) :
+    ∀ (ps : List (κ × Bool)) (s : σ) (ev : Option ν) (vis : List κ),
+      specLoop has body ((ps.map fun p => (i, p.1, p.2)) ++ tail) s (orV ev res) vis =
+        match inner has body i true res ps s ev vis with
+        | .finished ev' s' vis' => specLoop has body tail s' (orV ev' res) vis'
+        | .stopped r s' => .broke r s'
         | .exited x s' => .abrupt x s' := by
   intro ps
   induction ps with
-  | nil => intro _ s ev; simp [inner]
+  | nil => intro s ev vis; simp [inner]
   | cons p r ih =>
-    intro hsh s ev
+    intro s ev vis
     obtain ⟨k, en⟩ := p
-    have hr : ∀ s k', k' ∈ names r → shadowNow has s i k' = seen.contains k' := by
-      intro s k' hk'
-      exact hsh s k' (by simp [names] at hk' ⊢; exact Or.inr hk')
-    have hk : shadowNow has s i k = seen.contains k := hsh s k (by simp [names])
-    by_cases hkeep : (en && !seen.contains k) = true
-    · -- the property is in the flat list
-      have hen : en = true := by simp at hkeep; exact hkeep.1
-      have hns : seen.contains k = false := by simp at hkeep; simpa using hkeep.2
-      by_cases hhas : has s i k = true
-      · simp only [List.filter_cons, if_true, List.map_cons, List.cons_append, specLoop, hhas, inner, hen, hk, hns,
-          Bool.not_false, Bool.and_self]
-        cases hb : body k s with
-        | normal v s' => simp only []; rw [orV_assoc]; exact ih hr s' (orV v ev)
-        | cont v s' => simp only []; rw [orV_assoc]; exact ih hr s' (orV v ev)
-        | brk v s' => simp [Fin.obs]
-        | exit x s' => simp [Fin.obs]
-      · have hhas' : has s i k = false := by simpa using hhas
-        simp only [List.filter_cons, hkeep, if_true, List.map_cons, List.cons_append, specLoop, hhas', inner,
-          Bool.false_and, Bool.false_eq_true, if_false]
-        exact ih hr s ev
-    · -- not enumerable, or shadowed: otto skips it, and it is not in the flat list
-      have hcond : (has s i k && en && !shadowNow has s i k) = false := by
-        rw [hk]
-        cases hh : has s i k <;> cases hen : en <;> cases hc : seen.contains k <;> simp_all
-      simp only [List.filter_cons, hkeep, inner, hcond, Bool.false_eq_true, if_false]
-      exact ih hr s ev
+    simp only [List.map_cons, List.cons_append, specLoop, inner, Bool.true_and, if_true]
+    split
+    · cases hb : body k s with
+      | normal v s' => simp only []; rw [orV_assoc]; exact ih s' (orV v ev) (k :: vis)
+      | cont v s' => simp only []; rw [orV_assoc]; exact ih s' (orV v ev) (k :: vis)
+      | brk v s' => simp only []; rw [orV_assoc]
+      | exit x s' => rfl
+    · exact ih s ev vis
 
-/-- the whole chain from position `i` on -/
-theorem outer_spec (has : σ → Nat → κ → Bool) (body : κ → σ → Out σ ρ ν) :
-    ∀ (rest : List (Props κ)) (i : Nat) (seen : List κ) (s : σ) (res : Option ν),
-      ShadowOK has i rest seen →
-      (outer has body i rest s res).obs = (specLoop has body (flat i rest seen) s res).obs := by
+theorem outer_rec (has : σ → Nat → κ → Bool) (body : κ → σ → Out σ ρ ν) :
+    ∀ (rest : List (Obj κ)) (i : Nat) (s : σ) (res : Option ν) (vis : List κ),
+      outer has body true i rest s res vis = specLoop has body (flatAll i rest) s res vis := by
   intro rest
   induction rest with
-  | nil => intro i seen s res _; simp [outer, flat, specLoop]
+  | nil => intro i s res vis; simp [outer, flatAll, specLoop]
   | cons o rest ih =>
-    intro i seen s res hok
-    obtain ⟨h1, h2⟩ := hok
-    have hi := inner_spec has body i seen (flat (i+1) rest (seen ++ names o)) res o h1 s none
-    simp only [flat, outer]
+    intro i s res vis
+    have hi := inner_rec has body i (flatAll (i+1) rest) res o.props s none vis
     have hnone : orV (none : Option ν) res = res := rfl
     rw [hnone] at hi
+    simp only [flatAll, outer]
     rw [hi]
-    cases hin : inner has body i o s none with
-    | finished ev' s' => simp only []; exact ih (i+1) (seen ++ names o) s' (orV ev' res) h2
-    | stopped s' => simp [Fin.obs]
-    | exited x s' => simp [Fin.obs]
+    cases hin : inner has body i true res o.props s none vis with
+    | finished ev' s' vis' => simp only []; exact ih (i+1) s' (orV ev' res) vis'
+    | stopped r s' => rfl
+    | exited x s' => rfl
+
+/-! ### the chain is a single object: no visited set; the names of one object are distinct -/
+
+theorem inner_norec (has : σ → Nat → κ → Bool) (body : κ → σ → Out σ ρ ν) (i : Nat) (res : Option ν) :
+    ∀ (ps : List (κ × Bool)), (ps.map (·.1)).Nodup →
+    ∀ (s : σ) (ev : Option ν) (vis ov : List κ), (∀ k, k ∈ ps.map (·.1) → k ∉ vis) →
+      specLoop has body (ps.map fun p => (i, p.1, p.2)) s (orV ev res) vis =
+        match inner has body i false res ps s ev ov with
+        | .finished ev' s' _ => .exhausted (orV ev' res) s'
+        | .stopped r s' => .broke r s'
+        | .exited x s' => .abrupt x s' := by
+  intro ps
+  induction ps with
+  | nil => intro _ s ev vis ov _; simp [inner, specLoop]
+  | cons p r ih =>
+    intro hnd s ev vis ov hvis
+    obtain ⟨k, en⟩ := p
+    have hnd' : (r.map (·.1)).Nodup := (List.nodup_cons.1 (by simpa using hnd)).2
+    have hkr : k ∉ r.map (·.1) := (List.nodup_cons.1 (by simpa using hnd)).1
+    have hkv : vis.contains k = false := by
+      have := hvis k (by simp)
+      simpa using this
+    have hr : ∀ k', k' ∈ r.map (·.1) → k' ∉ vis := fun k' hk' => hvis k' (by simp at hk' ⊢; exact Or.inr hk')
+    simp only [List.map_cons, specLoop, inner, hkv, Bool.not_false, Bool.and_true, Bool.false_and, if_false,
+      Bool.false_eq_true]
+    split
+    · have hr' : ∀ k', k' ∈ r.map (·.1) → k' ∉ k :: vis := by
+        intro k' hk' hmem
+        rcases List.mem_cons.1 hmem with h | h
+        · exact hkr (h ▸ hk')
+        · exact hr k' hk' h
+      cases hb : body k s with
+      | normal v s' => simp only []; rw [orV_assoc]; exact ih hnd' s' (orV v ev) (k :: vis) ov hr'
+      | cont v s' => simp only []; rw [orV_assoc]; exact ih hnd' s' (orV v ev) (k :: vis) ov hr'
+      | brk v s' => simp only []; rw [orV_assoc]
+      | exit x s' => rfl
+    · exact ih hnd' s ev vis ov hr
+
+/-- **forin_refines**: for every chain, every property list, every `has` and every behaviour of the
+    body, otto's for-in ends the way §12.6.4 says (all visited / break / the same abrupt completion),
+    in the same state, with the same completion value. -/
+theorem forin_refines (has : σ → Nat → κ → Bool) (body : κ → σ → Out σ ρ ν) (chain : List (Obj κ)) (s : σ) :
+    ottoForIn has body chain s = specForIn has body chain s := by
+  match chain with
+  | [] => simp [ottoForIn, specForIn, outer, flatAll, specLoop]
+  | [o] =>
+    have h := inner_norec has body 0 none o.props o.nodup s none [] [] (by simp)
+    have hnone : orV (none : Option ν) none = none := rfl
+    rw [hnone] at h
+    simp only [ottoForIn, specForIn, flatAll, List.append_nil, List.length_singleton, Nat.lt_irrefl, decide_false, outer]
+    rw [h]
+    cases inner has body 0 false none o.props s none [] with
+    | finished ev' s' vis' => cases ev' <;> rfl
+    | stopped r s' => rfl
+    | exited x s' => rfl
+  | o1 :: o2 :: rest =>
+    have : decide (1 < (o1 :: o2 :: rest).length) = true := by simp
+    simp only [ottoForIn, specForIn, this]
+    exact outer_rec has body (o1 :: o2 :: rest) 0 s none []
+
+/-! ### the static reading -/
+
+/-- the shadow test made when a property's turn comes gives what the list of names of the objects
+    nearer the start says, for every object from position `i` on -/
+def ShadowOK (has : σ → Nat → κ → Bool) : Nat → List (Obj κ) → List κ → Prop
+  | _, [], _ => True
+  | i, o :: rest, seen =>
+    (∀ s k, k ∈ o.names → shadowNow has s i k = seen.contains k) ∧ ShadowOK has (i+1) rest (seen ++ o.names)
+
+/-- one object: under the static shadow test the visited test never fires -/
+theorem inner_static (has : σ → Nat → κ → Bool) (body : κ → σ → Out σ ρ ν) (i : Nat) (seen bound : List κ)
+    (tailA : List (Nat × κ × Bool)) (tailS : List (Nat × κ))
+    (hk : ∀ (s : σ) (V : Option ν) (vis : List κ), (∀ x, x ∈ vis → x ∈ bound) →
+      specLoop has body tailA s V vis = staticLoop has body tailS s V) :
+    ∀ (ps : List (κ × Bool)), (ps.map (·.1)).Nodup →
+      (∀ s k, k ∈ ps.map (·.1) → shadowNow has s i k = seen.contains k) →
+      (∀ k, k ∈ ps.map (·.1) → k ∈ bound) →
+    ∀ (s : σ) (V : Option ν) (vis : List κ),
+      (∀ k, k ∈ ps.map (·.1) → seen.contains k = false → k ∉ vis) → (∀ x, x ∈ vis → x ∈ bound) →
+      specLoop has body ((ps.map fun p => (i, p.1, p.2)) ++ tailA) s V vis =
+        staticLoop has body (((ps.filter fun p => p.2 && !seen.contains p.1).map fun p => (i, p.1)) ++ tailS) s V := by
+  intro ps
+  induction ps with
+  | nil => intro _ _ _ s V vis _ hG; simpa using hk s V vis hG
+  | cons p r ih =>
+    intro hnd hsh hb s V vis hH hG
+    obtain ⟨k, en⟩ := p
+    have hnd' : (r.map (·.1)).Nodup := (List.nodup_cons.1 (by simpa using hnd)).2
+    have hkr : k ∉ r.map (·.1) := (List.nodup_cons.1 (by simpa using hnd)).1
+    have hsh' : ∀ s k', k' ∈ r.map (·.1) → shadowNow has s i k' = seen.contains k' :=
+      fun s k' hk' => hsh s k' (by simp at hk' ⊢; exact Or.inr hk')
+    have hb' : ∀ k', k' ∈ r.map (·.1) → k' ∈ bound := fun k' hk' => hb k' (by simp at hk' ⊢; exact Or.inr hk')
+    have hH' : ∀ k', k' ∈ r.map (·.1) → seen.contains k' = false → k' ∉ vis :=
+      fun k' hk' => hH k' (by simp at hk' ⊢; exact Or.inr hk')
+    have hks : shadowNow has s i k = seen.contains k := hsh s k (by simp)
+    have hkb : k ∈ bound := hb k (by simp)
+    by_cases hkeep : (en && !seen.contains k) = true
+    · have hen : en = true := by simp at hkeep; exact hkeep.1
+      have hns : seen.contains k = false := by simp at hkeep; simpa using hkeep.2
+      have hkv : vis.contains k = false := by
+        have := hH k (by simp) hns
+        simpa using this
+      simp only [List.map_cons, List.cons_append, specLoop, hen, hks, hns, hkv, Bool.not_false, Bool.and_true,
+        List.filter_cons, Bool.and_self, if_true, staticLoop]
+      split
+      · have hH2 : ∀ k', k' ∈ r.map (·.1) → seen.contains k' = false → k' ∉ k :: vis := by
+          intro k' hk' hs' hmem
+          rcases List.mem_cons.1 hmem with h | h
+          · exact hkr (h ▸ hk')
+          · exact hH' k' hk' hs' h
+        have hG2 : ∀ x, x ∈ k :: vis → x ∈ bound := by
+          intro x hx
+          rcases List.mem_cons.1 hx with h | h
+          · exact h ▸ hkb
+          · exact hG x h
+        cases hbd : body k s with
+        | normal v s' => simp only []; exact ih hnd' hsh' hb' s' (orV v V) (k :: vis) hH2 hG2
+        | cont v s' => simp only []; exact ih hnd' hsh' hb' s' (orV v V) (k :: vis) hH2 hG2
+        | brk v s' => rfl
+        | exit x s' => rfl
+      · exact ih hnd' hsh' hb' s V vis hH' hG
+    · have hcond : (has s i k && en && !shadowNow has s i k && !vis.contains k) = false := by
+        rw [hks]
+        cases hh : has s i k <;> cases hen : en <;> cases hc : seen.contains k <;> simp_all
+      simp only [List.map_cons, List.cons_append, specLoop, hcond, Bool.false_eq_true, if_false, List.filter_cons, hkeep]
+      exact ih hnd' hsh' hb' s V vis hH' hG
+
+theorem chain_static (has : σ → Nat → κ → Bool) (body : κ → σ → Out σ ρ ν) :
+    ∀ (rest : List (Obj κ)) (i : Nat) (seen : List κ), ShadowOK has i rest seen →
+    ∀ (s : σ) (V : Option ν) (vis : List κ), (∀ x, x ∈ vis → x ∈ seen) →
+      specLoop has body (flatAll i rest) s V vis = staticLoop has body (flat i rest seen) s V := by
+  intro rest
+  induction rest with
+  | nil => intro i seen _ s V vis _; simp [flatAll, flat, specLoop, staticLoop]
+  | cons o rest ih =>
+    intro i seen hok s V vis hvis
+    obtain ⟨h1, h2⟩ := hok
+    simp only [flatAll, flat]
+    refine inner_static has body i seen (seen ++ o.names) (flatAll (i+1) rest) (flat (i+1) rest (seen ++ o.names))
+      (fun s' V' vis' hG => ih (i+1) (seen ++ o.names) h2 s' V' vis' hG) o.props o.nodup h1 ?_ s V vis ?_ ?_
+    · intro k hk; exact List.mem_append_right _ hk
+    · intro k _ hns hmem
+      have := hvis k hmem
+      simp at hns
+      exact hns this
+    · intro x hx; exact List.mem_append_left _ (hvis x hx)
 
 /-- the names of the objects of a chain prefix, in order -/
-def flatNames (pre : List (Props κ)) : List κ := (pre.map names).flatten
+def flatNames (pre : List (Obj κ)) : List κ := (pre.map Obj.names).flatten
 
 theorem shadowOK_of_stable (has : σ → Nat → κ → Bool) :
-    ∀ (rest pre : List (Props κ)), Stable has (pre ++ rest) → ShadowOK has pre.length rest (flatNames pre) := by
+    ∀ (rest pre : List (Obj κ)), Stable has (pre ++ rest) → ShadowOK has pre.length rest (flatNames pre) := by
   intro rest
   induction rest with
   | nil => intro pre _; trivial
@@ -103,159 +224,81 @@ theorem shadowOK_of_stable (has : σ → Nat → κ → Bool) :
     intro pre hst
     refine ⟨?_, ?_⟩
     · intro s k hk
-      have hget : (pre ++ o :: rest).getD pre.length [] = o := by simp [List.getD]
+      have hget : (pre ++ o :: rest)[pre.length]? = some o := by simp
       rw [Bool.eq_iff_iff]
       simp only [shadowNow, List.any_eq_true, List.mem_range, List.contains_iff_mem, flatNames, List.mem_flatten,
         List.mem_map]
       constructor
       · rintro ⟨j, hj, hhas⟩
-        have := (hst s pre.length j k hj (by rw [hget]; exact hk)).1 hhas
-        have hgj : (pre ++ o :: rest).getD j [] = pre[j] := by simp [List.getD, List.getElem?_append_left hj, hj]
-        rw [hgj] at this
-        exact ⟨names pre[j], ⟨pre[j], List.getElem_mem hj, rfl⟩, this⟩
+        obtain ⟨o', ho', hko'⟩ := (hst s pre.length j k hj ⟨o, hget, hk⟩).1 hhas
+        have hgj : (pre ++ o :: rest)[j]? = some pre[j] := by simp [List.getElem?_append_left hj]
+        rw [hgj] at ho'
+        cases ho'
+        exact ⟨pre[j].names, ⟨pre[j], List.getElem_mem hj, rfl⟩, hko'⟩
       · rintro ⟨l, ⟨o', ho', rfl⟩, hkl⟩
         obtain ⟨j, hj, rfl⟩ := List.mem_iff_getElem.1 ho'
         refine ⟨j, hj, ?_⟩
-        have hgj : (pre ++ o :: rest).getD j [] = pre[j] := by simp [List.getD, List.getElem?_append_left hj, hj]
-        exact (hst s pre.length j k hj (by rw [hget]; exact hk)).2 (by rw [hgj]; exact hkl)
+        have hgj : (pre ++ o :: rest)[j]? = some pre[j] := by simp [List.getElem?_append_left hj]
+        exact (hst s pre.length j k hj ⟨o, hget, hk⟩).2 ⟨pre[j], hgj, hkl⟩
     · have := ih (pre ++ [o]) (by simpa using hst)
       simpa [flatNames] using this
 
-/-- **forin_refines**: for every chain, every property list, every `has` (deletions included) and every
-    behaviour of the body, otto's for-in and §12.6.4 end the same way (all visited / break / the same
-    abrupt completion), in the same state, with the same value – the value after `break` excepted –
-    provided shadowing does not change during the enumeration. -/
-theorem forin_refines (has : σ → Nat → κ → Bool) (body : κ → σ → Out σ ρ ν) (chain : List (Props κ)) (s : σ)
-    (hst : Stable has chain) :
-    (ottoForIn has body chain s).obs = (specForIn has body chain s).obs := by
+/-- the two readings of §12.6.4 coincide when shadowing does not change during the enumeration -/
+theorem spec_eq_static (has : σ → Nat → κ → Bool) (body : κ → σ → Out σ ρ ν) (chain : List (Obj κ)) (s : σ)
+    (hst : Stable has chain) : specForIn has body chain s = specStatic has body chain s := by
   have := shadowOK_of_stable has chain [] (by simpa using hst)
-  exact outer_spec has body chain 0 [] s none (by simpa [flatNames] using this)
+  exact chain_static has body chain 0 [] (by simpa [flatNames] using this) s none [] (by simp)
 
-/-! ### the value, when the body never breaks -/
+/-- **forin_refines_static**: otto's for-in against the reading FnSpec executes (properties to visit and
+    what shadows what fixed when the statement starts) -/
+theorem forin_refines_static (has : σ → Nat → κ → Bool) (body : κ → σ → Out σ ρ ν) (chain : List (Obj κ)) (s : σ)
+    (hst : Stable has chain) : ottoForIn has body chain s = specStatic has body chain s :=
+  (forin_refines has body chain s).trans (spec_eq_static has body chain s hst)
 
-omit [DecidableEq κ] in
-theorem spec_not_broke (has : σ → Nat → κ → Bool) (body : κ → σ → Out σ ρ ν)
-    (hnb : ∀ k s v s', body k s ≠ .brk v s') :
-    ∀ (l : List (Nat × κ)) (s : σ) (V : Option ν) v s', specLoop has body l s V ≠ .broke v s' := by
-  intro l
-  induction l with
-  | nil => intro s V v s'; simp [specLoop]
-  | cons p r ih =>
-    intro s V v s'
-    obtain ⟨i, k⟩ := p
-    simp only [specLoop]
-    split
-    · cases hb : body k s with
-      | normal w t => exact ih t _ v s'
-      | cont w t => exact ih t _ v s'
-      | brk w t => exact absurd hb (hnb k s w t)
-      | exit x t => simp
-    · exact ih s V v s'
-
-omit [DecidableEq κ] in
-theorem inner_not_stopped (has : σ → Nat → κ → Bool) (body : κ → σ → Out σ ρ ν)
-    (hnb : ∀ k s v s', body k s ≠ .brk v s') (i : Nat) :
-    ∀ (ps : Props κ) (s : σ) (ev : Option ν) s', inner has body i ps s ev ≠ .stopped s' := by
-  intro ps
-  induction ps with
-  | nil => intro s ev s'; simp [inner]
-  | cons p r ih =>
-    intro s ev s'
-    obtain ⟨k, en⟩ := p
-    simp only [inner]
-    split
-    · cases hb : body k s with
-      | normal w t => exact ih t _ s'
-      | cont w t => exact ih t _ s'
-      | brk w t => exact absurd hb (hnb k s w t)
-      | exit x t => simp
-    · exact ih s ev s'
-
-omit [DecidableEq κ] in
-theorem outer_not_broke (has : σ → Nat → κ → Bool) (body : κ → σ → Out σ ρ ν)
-    (hnb : ∀ k s v s', body k s ≠ .brk v s') :
-    ∀ (rest : List (Props κ)) (i : Nat) (s : σ) (res : Option ν) v s', outer has body i rest s res ≠ .broke v s' := by
-  intro rest
-  induction rest with
-  | nil => intro i s res v s'; simp [outer]
-  | cons o rest ih =>
-    intro i s res v s'
-    simp only [outer]
-    cases hin : inner has body i o s none with
-    | finished ev t => exact ih (i+1) t _ v s'
-    | stopped t => exact absurd hin (inner_not_stopped has body hnb i o s none t)
-    | exited x t => simp
-
-theorem obs_inj {a b : Fin σ ρ ν} (ha : ∀ v s, a ≠ .broke v s) (hb : ∀ v s, b ≠ .broke v s)
-    (h : a.obs = b.obs) : a = b := by
-  cases a with
-  | broke v s => exact absurd rfl (ha v s)
-  | exhausted v s =>
-    cases b with
-    | broke w t => exact absurd rfl (hb w t)
-    | exhausted w t => simpa [Fin.obs] using h
-    | abrupt x t => simp [Fin.obs] at h
-  | abrupt x s =>
-    cases b with
-    | broke w t => exact absurd rfl (hb w t)
-    | exhausted w t => simp [Fin.obs] at h
-    | abrupt y t => simpa [Fin.obs] using h
-
-/-- **forin_refines_value**: when the body never completes with a break for this statement, the
-    completion values agree too (return / continue / outer break and continue / normal exhaustion) -/
-theorem forin_refines_value (has : σ → Nat → κ → Bool) (body : κ → σ → Out σ ρ ν) (chain : List (Props κ)) (s : σ)
-    (hst : Stable has chain) (hnb : ∀ k s v s', body k s ≠ .brk v s') :
-    ottoForIn has body chain s = specForIn has body chain s :=
-  obs_inj (outer_not_broke has body hnb chain 0 s none) (spec_not_broke has body hnb _ s none)
-    (forin_refines has body chain s hst)
-
-/-- with no deletion or addition at all (`has` = what the lists say), `Stable` holds -/
-theorem stable_of_static (chain : List (Props κ)) :
-    Stable (fun (_ : σ) j k => (names (chain.getD j [])).contains k) chain := by
-  intro s i j k _ _
-  simp
 end
 
-/-! ### non-vacuity and the two Dev regions, on concrete instances
+/-! ### concrete instances (kernel-checked)
   state = (log of visited names, "own a has been deleted"), values = Nat, exits = Nat -/
 
 abbrev S := List String × Bool
 
 /-- chain: object 0 = {a (enumerable), h (not enumerable)}, object 1 = {a, h, b} all enumerable -/
-def chain1 : List (Props String) := [[("a", true), ("h", false)], [("a", true), ("h", true), ("b", true)]]
+def chain1 : List (Obj String) :=
+  [⟨[("a", true), ("h", false)], by decide⟩, ⟨[("a", true), ("h", true), ("b", true)], by decide⟩]
 
-def hasStatic : S → Nat → String → Bool := fun _ j k => (names (chain1.getD j [])).contains k
+def hasStatic : S → Nat → String → Bool := fun _ j k =>
+  match chain1[j]? with
+  | some o => o.names.contains k
+  | none => false
 
 /-- logs the name, value 7 -/
 def bodyLog : String → S → Out S Nat Nat := fun k s => .normal (some 7) (s.1 ++ [k], s.2)
 
--- the hypothesis is satisfiable, and the visit is: own a, then inherited b (a and h are shadowed,
--- h by a NON-enumerable property)
-example : Stable hasStatic chain1 := stable_of_static chain1
+-- the visit is: own a, then inherited b (a and h are shadowed, h by a NON-enumerable property)
 example : ottoForIn hasStatic bodyLog chain1 ([], false) = .exhausted (some 7) (["a", "b"], false) := by decide
-example : specForIn hasStatic bodyLog chain1 ([], false) = .exhausted (some 7) (["a", "b"], false) := by decide
+example : specStatic hasStatic bodyLog chain1 ([], false) = .exhausted (some 7) (["a", "b"], false) := by decide
 
-/-- return in the first iteration: the prototype is NOT enumerated (the defect repaired by cfa3e2e) -/
+/-- `Stable` is satisfiable: nothing deleted, nothing added -/
+theorem stable_hasStatic : Stable hasStatic chain1 := by
+  intro s i j k _ _
+  simp only [hasStatic]
+  cases h : chain1[j]? with
+  | none => simp
+  | some o => simp
+
+/-- return in the first iteration: the prototype is not enumerated -/
 def bodyRet : String → S → Out S Nat Nat := fun k s => .exit 1 (s.1 ++ [k], s.2)
 example : ottoForIn hasStatic bodyRet chain1 ([], false) = .abrupt 1 (["a"], false) := by decide
 
-/-- Dev `forin_break_value`: value 7, then break -/
+/-- value 7, then break: the value is the statement's value (was Dev region forin_break_value) -/
 def bodyBrk : String → S → Out S Nat Nat := fun k s => .brk (some 7) (s.1 ++ [k], s.2)
-theorem dev_break_value :
-    ottoForIn hasStatic bodyBrk chain1 ([], false) = .broke none (["a"], false) ∧
-    specForIn hasStatic bodyBrk chain1 ([], false) = .broke (some 7) (["a"], false) := by decide
+example : ottoForIn hasStatic bodyBrk chain1 ([], false) = .broke (some 7) (["a"], false) := by decide
 
-/-- Dev `forin_revisit`: the body deletes the own `a` (flag in the state); `Stable` fails and otto
-    visits the name `a` a second time, on the prototype -/
+/-- the body deletes the own `a` (flag in the state): the name `a` is not visited again on the
+    prototype (was Dev region forin_revisit), although it is no longer shadowed there -/
 def hasDel : S → Nat → String → Bool := fun s j k => if j = 0 ∧ k = "a" ∧ s.2 then false else hasStatic s j k
 def bodyDel : String → S → Out S Nat Nat := fun k s => .normal none (s.1 ++ [k], true)
-theorem dev_revisit :
-    ottoForIn hasDel bodyDel chain1 ([], false) = .exhausted none (["a", "a", "b"], true) ∧
-    specForIn hasDel bodyDel chain1 ([], false) = .exhausted none (["a", "b"], true) ∧
-    ¬ Stable hasDel chain1 := by
-  refine ⟨by decide, by decide, ?_⟩
-  intro h
-  have := (h ([], true) 1 0 "a" (by decide) (by decide)).2 (by decide)
-  exact absurd this (by decide)
+example : ottoForIn hasDel bodyDel chain1 ([], false) = .exhausted none (["a", "b"], true) := by decide
+example : specStatic hasDel bodyDel chain1 ([], false) = .exhausted none (["a", "b"], true) := by decide
 
 end OttoVerif.C01.ForInThm
